@@ -393,11 +393,38 @@ def check_evr(case):
     return {"nontrivial": nt, "labels": sorted(labels) + ["via=" + case["via"]]}
 
 
+# ---- coverage-guided fuzzing (Atheris) over the same differential oracle -------------------------
+
+_FUZZ_ALPHABET = list(u"0123456789abzABZrcelp.-_+~^ :/") + [u"\u00e9", u"\u03b1", u"\u4e2d", "00", "~~", "^~", ".."]
+
+
+def fuzz_decode(fdp):
+    n = fdp.ConsumeIntInRange(0, 20)
+    a = "".join(_FUZZ_ALPHABET[fdp.ConsumeIntInRange(0, len(_FUZZ_ALPHABET) - 1)] for _ in range(n))
+    mode = fdp.ConsumeIntInRange(0, 3)
+    if mode == 0:
+        m = fdp.ConsumeIntInRange(0, 20)
+        b = "".join(_FUZZ_ALPHABET[fdp.ConsumeIntInRange(0, len(_FUZZ_ALPHABET) - 1)] for _ in range(m))
+    else:
+        # mutate a: splice / delete / insert at a position
+        i = fdp.ConsumeIntInRange(0, len(a))
+        j = fdp.ConsumeIntInRange(i, len(a))
+        ins = "".join(_FUZZ_ALPHABET[fdp.ConsumeIntInRange(0, len(_FUZZ_ALPHABET) - 1)]
+                      for _ in range(fdp.ConsumeIntInRange(0, 4)))
+        b = a[:i] + ins + a[j:]
+    return {"a": a, "b": b}
+
+
+from vp import fuzz as _fuzz   # noqa: E402
+
 SUBS = [
     Sub("exhaustive", check_pair, custom=exhaustive_pairs, workers_quick=4, workers_thorough=16,
         budget_quick=120, budget_thorough=1800),
     Sub("random_pairs", check_pair, strategy=strat_pairs, quick=6000, thorough=60000, workers_quick=2),
     Sub("evr", check_evr, strategy=strat_evr, quick=1500, thorough=20000, workers_quick=2),
+    Sub("atheris", check_pair, custom=_fuzz.campaign(PROPERTY, "atheris", "fuzz_decode", ["insights.parsers.rpm_vercmp"],
+                                                      runs_quick=60000, runs_thorough=1500000, max_len=64),
+        workers_quick=2, workers_thorough=16, budget_quick=60, budget_thorough=1500),
 ]
 
 REGRESSIONS = [
